@@ -160,6 +160,23 @@ def rt_wrapper(seed, n):
         ok = all(abs(res.V[s] - res._valuevec[i]) < 1e-12 for i, s in enumerate(sl)) and all(abs(res.Q[s][a] - res._qvaluemat[i, j]) < 1e-12 for i, s in enumerate(sl) for j, a in enumerate(al))
         ok = ok and all(abs(res.policy[s][a] - np.asarray(res.policy)[i, j]) < 1e-12 for i, s in enumerate(sl) for j, a in enumerate(al))
         out.append(dict(name='rt:plan_on:tables-transcribe-the-arrays-under-the-state/action-lists', ok=bool(ok), witness=dict(gamma=g)))
+        # the wrapper's own convergence flag under small iteration budgets: whenever it REPORTS convergence the tables are the soft Bellman fixed point
+        for budget in (1, 2, 3, 5):
+            wgt = rnd.choice([.1, 1., 3.])
+            with warnings.catch_warnings():
+                warnings.simplefilter('ignore')
+                rb = er.EntropyRegularizedPolicyIteration(iterations=budget, entropy_weight=wgt).plan_on(m)
+            if rb.converged:
+                worst = 0.0
+                for s_ in sl:
+                    zs = [rb.Q[s_][a_] / wgt + math.log(1.0 / len(al)) for a_ in al]
+                    mx = max(zs)
+                    lse = wgt * (mx + math.log(sum(math.exp(z - mx) for z in zs)))
+                    worst = max(worst, abs(rb.V[s_] - lse))
+                out.append(dict(name='rt:plan_on:a-reported-convergence-under-a-small-iteration-budget-is-the-soft-Bellman-fixed-point', ok=worst < 1e-3 * (1 + max(abs(x) for x in rb.V.values())),
+                                witness=dict(gamma=g, budget=budget, weight=wgt, err=worst, iterations=int(rb.iterations))))
+            else:
+                out.append(dict(name='rt:plan_on:an-exhausted-budget-is-reported-as-not-converged', ok=True, witness=dict(budget=budget)))
         out.append(dict(name='rt:plan_on:initial-value-is-the-initial-expectation-of-V', ok=abs(res.initial_value - sum(p * res.V[s] for s, p in {0: .5, 1: .5}.items())) < 1e-12, witness=dict(gamma=g)))
     return out
 
